@@ -5,7 +5,7 @@ from pyvc.contracts import contract
 # other table is Gauss-Legendre (degree 2n - 1); the degree is non-decreasing in n, which is what convergence with the order needs
 _GAUSS_DEGREE = {1: 1, 2: 3, 3: 5, 4: 7, 5: 9, 6: 11, 7: 13, 8: 15, 9: 15, 10: 19}
 for _n, _deg in _GAUSS_DEGREE.items():
-    contract("uxarray.grid.area.get_gauss_quadratureDG", props=["C05"], variant=f"n={_n}",
+    contract("uxarray.grid.area.get_gauss_quadratureDG", props=["C05", "C06"], variant=f"n={_n}",
              params={"nCount": repr(_n)},
              returns="opaque",
              ensures=[f"gauss_rule_ok(result[0], result[1], {_deg}, 1e-12)",
@@ -13,7 +13,7 @@ for _n, _deg in _GAUSS_DEGREE.items():
              raises=[("Exception", "False", "only_if")])
 
 for _o in (1, 4, 8, 10, 12):
-    contract("uxarray.grid.area.get_tri_quadratureDG", props=["C05"], variant=f"order={_o}",
+    contract("uxarray.grid.area.get_tri_quadratureDG", props=["C05", "C06"], variant=f"order={_o}",
              params={"nOrder": repr(_o)},
              returns="opaque",
              ensures=[f"tri_rule_ok(result[0], result[1], {_o}, 1e-10)"],
